@@ -1,6 +1,6 @@
 HOOK_COMMITS = []
 ENGINES = [
-    {"name": "mc-core::enumerate", "path": "harness/mc-core/src/enumerate.rs", "serves_properties": ["C16"],
+    {"name": "mc-core::enumerate", "path": "harness/mc-core/src/enumerate.rs", "serves_properties": ["C16", "C17"],
      "kind_free_text": "exhaustive bounded input enumeration (odometers, products, subsets, byte mutations) against independent references"},
     {"name": "mc-core::bfs", "path": "harness/mc-core/src/bfs.rs", "serves_properties": [],
      "kind_free_text": "explicit-state BFS over operation histories; the transition function is the real method (clone mode / replay mode)"},
@@ -12,6 +12,10 @@ CHECKS = [
      "technique": "exhaustive bounded input enumeration vs independent decimal reference",
      "text": "Every string up to length 5/6 over a 12-character boundary alphabet, a structured family of long decimal strings up to and past the 256-bit range, ~1000 boundary amounts and all ordered pairs of a boundary set are run through the real AttoTokens parser/printer/arithmetic and compared with an independent digit-vector reference; complete within those bounds, silent outside them.",
      "note": "Trusted: the reference in chk-pure/src/refnum.rs; the 256-bit space is covered only through the boundary sets."},
+    {"id": "C17", "engine": "mc-core::enumerate", "level": "exploration",
+     "technique": "exhaustive bounded input enumeration under catch_unwind with overflow checks on",
+     "text": "Each listed parser is called on a completely enumerated boundary family (all lengths, all truncations and single-token/byte mutations of valid inputs, all short strings over marker alphabets, all 65536 ports); a panic or arithmetic overflow in the real code is a violation, and parse(format(x))==x is checked where a formatter exists. Complete within the families, silent outside them.",
+     "note": "Trusted: catch_unwind + overflow-checks=on surface every crash; inputs outside the enumerated families (long random text, deep JSON nesting) are not covered."},
 ]
 _pending = "check not built yet in this session (planned in DESIGN.md §4); not claimed until it runs"
 NOT_BUILT = [(f"C{i:02d}", _pending) for i in range(1, 21) if f"C{i:02d}" not in {c["id"] for c in CHECKS}]
